@@ -527,9 +527,8 @@ func (s *Sim) Run(maxSteps int, until func() bool, deadline time.Time) Reason {
 		if len(cands) == 0 {
 			s.mu.Unlock()
 			if !s.idle(wait) {
-				if !deadline.IsZero() && !time.Now().Before(deadline) {
-					return Horizon
-				}
+				// nothing woke up for the whole wait: quiescent. (Horizon is for
+				// activity that is still going on when the deadline passes.)
 				return Quiescent
 			}
 			continue
